@@ -57,6 +57,10 @@ def obligations(tier, ctx):
                               call=f"H.nego_sel({list(sup)!r}, {pref}, 0, a, 0, {bool(distractor)}, {gl}, T)",
                               real=f"H.nego_sel_real({list(sup)!r}, {pref}, 0, a, 0, {bool(distractor)}, {gl}, T)",
                               backend="P", timeout=300, family="real+invented dates: answer by symbolic index, symbolic schedule"))
+    for where in (0, 1, 2):
+        for ln in ((1, 2) if tier == "quick" else (1, 2, 3)):
+            obs.append(Ob(name=f"affix_w{where}_L{ln}", params=[("c", "str"), ("b", "bool")], pre=[f"len(c) == {ln}"], call=f"H.nego_affix(c, {where}, b)", backend="F", timeout=400,
+                          family="answer = an offered version with a symbolic affix (appended / prepended / inserted)"))
     from symcheck import consts
     nsz = len(consts.size_cases(70000, extra=(4096, 8192, 65536, 131072)))
     for form in range(5):
